@@ -67,6 +67,33 @@ def parse_output(out):
     return r
 
 
+class _HeapBudget:
+    """TLC processes started in parallel by one check (slices of a long recording) share the machine's memory: the sum of
+    their maximum heaps stays below BUDGET_GB, later ones wait."""
+    BUDGET_GB = 36
+
+    def __init__(self):
+        import threading
+        self.cv = threading.Condition()
+        self.used = 0
+
+    def acquire(self, gb):
+        gb = min(gb, self.BUDGET_GB)
+        with self.cv:
+            while self.used + gb > self.BUDGET_GB:
+                self.cv.wait()
+            self.used += gb
+        return gb
+
+    def release(self, gb):
+        with self.cv:
+            self.used -= gb
+            self.cv.notify_all()
+
+
+HEAP = _HeapBudget()
+
+
 def check(module, cfg, workers=8, timeout=900, coverage=True, depth_first=False, sim=None, name=None,
           env_extra=None, heap="8g"):
     """Run TLC on spec/<module>.tla with spec/<cfg>. Returns parsed result dict."""
@@ -84,9 +111,11 @@ def check(module, cfg, workers=8, timeout=900, coverage=True, depth_first=False,
     jo = ["-Xmx" + heap, "-Xss1g"]
     if depth_first:
         jo.append("-Dtlc2.tool.queue.IStateQueue=StateDeque")
+    held = HEAP.acquire(int(heap.rstrip("g")))
     try:
         rc, out, wall = _java(args, env_extra=env_extra, timeout=timeout, java_opts=jo)
     finally:
+        HEAP.release(held)
         shutil.rmtree(md, ignore_errors=True)
     r = parse_output(out)
     r["rc"], r["wall"], r["out"] = rc, wall, out
